@@ -56,6 +56,13 @@ chk("C11", "E2", "explicit enumeration of inputs x budgets (every n in 1..N+2 fo
     "For every input of the bounded set (token sequences, derivations, invalid variants, nested parentheses) and every budget of the sweep: n=0 or n>=N reproduces the unlimited result exactly, 0<n<N yields nil + the max-expressions error, a limited parse runs <= n+1 steps, CreateEvaluator agrees with Parse under the same budget, deep nesting is rejected within the budget (steps, not wall clock).",
     "Accessor grammar.VerifParse exists only in the overlay (build tag verif); message text learned from the implementation; bounded inputs.", "DESIGN.md 5 C11")
 
+chk("C16", "E2", "explicit enumeration of all trees up to bounded depth x rendering choices (spellings, literal styles, redundant parentheses, not-not insertions, whitespace styles) and of all short literal strings in every legal quoting; each rendering parsed by the real parser and compared with the printed tree",
+    "All trees of depth<=2 (3 leaves) and depth 3 (2 leaves; thorough 3) x per-node redundant parentheses / not-not / 3 whitespace styles, all leaf spelling combinations, and all strings of length<=3 (thorough 4) over a 14-character alphabet incl. quotes, backslash, leading slash, control characters: parse(print(t)) == t, literal text == spelled string, X == <quoted s> true of X = s.",
+    "The printer (minimal parentheses per not > and > or, right grouping) is the harness's own; bounded depth/alphabet.", "DESIGN.md 5 C16")
+chk("C19", "E2", "explicit enumeration of parser-produced trees x indent strings x start levels; ExpressionDump compared byte-for-byte with an independent reference renderer",
+    "Every tree of the C16 spaces and every operator x spelling x literal (incl. escapes) x 4 indents x 3 levels: byte-equal to the reference rendering, no panic, deterministic; Selector.String on constructed selectors.",
+    "Reference renderer reads tree fields only; %q == strconv.Quote.", "DESIGN.md 5 C19")
+
 REASON_NOT_BUILT = "check not built yet (in progress) - will be decided by bounded exhaustive exploration, see DESIGN.md"
 
 def main():
